@@ -163,6 +163,29 @@ theorem judgeDc_iff (u l : List CapEv) (exceeded : Bool) :
   unfold judgeDc
   cases exceeded <;> simp
 
+/-! ## Re-execution and predicates: what the judges demand -/
+
+/-- `judgeCm_iff` / `judgeCc_iff`: a re-executed / reused / fresh cursor must give the identical stream
+(match ids included). -/
+theorem judgeCm_iff (a b : List Match) : judgeCm a b = true ↔ a = b := by unfold judgeCm; simp
+theorem judgeCc_iff (a b : List CapEv) : judgeCc a b = true ↔ a = b := by unfold judgeCc; simp
+
+/-- `mem_filterBy`: the spec of the predicate-filtering iterator keeps exactly the raw matches whose own
+pattern's predicates hold on the text of their captures. -/
+theorem mem_filterBy (ev : List (Nat × Bytes) → TextPred → Bool) (preds : List (Nat × TextPred))
+    (text : Array Nat) (u : List Match) (m : Match) :
+    m ∈ filterBy ev preds text u ↔
+      m ∈ u ∧ satisfies ev ((preds.filter fun p => p.1 == m.pat).map (·.2)) (capTexts text m) = true := by
+  unfold filterBy
+  simp [List.mem_filter]
+
+/-- `judgeF_iff`: the iterator's stream must be that filter of the raw stream (keys, in order). -/
+theorem judgeF_iff (isMatch : Bytes → Bytes → Bool) (preds : List (Nat × TextPred)) (text : Array Nat)
+    (u p : List Match) :
+    judgeF isMatch preds text u p = true ↔
+      (filterBy (evalSpec isMatch) preds text u).map Match.key = p.map Match.key := by
+  unfold judgeF; simp
+
 /-! ## Limits: the flag is set exactly when something is dropped -/
 
 /-- The pool is exhausted at this call of `prepare_to_capture`: the state exists, has no capture list
